@@ -63,6 +63,18 @@ impl Check for C12 {
         let dp = *r.pick(&[DrainPolicy::AlwaysAll, DrainPolicy::Mixed]);
         let tail = gen_events(r, &cfg2, &o2, policy, dp, &mut gs);
         evs.extend(tail);
+        if r.chance(1, 2) {
+            // equal states must have equal futures: a shared continuation (input and - where trim
+            // timing cannot legitimately differ - resizes) after the string under test
+            evs.push(Event::Snapshot);
+            let mut p3 = o2.profile.clone();
+            p3.max_tokens = 6;
+            p3.resize_pm = if cfg.limit.is_none() { 250 } else { 0 };
+            let o3 = SessionOpts { profile: p3, max_cols: mc, max_rows: mr };
+            let cont = gen_events(r, &cfg2, &o3, CutPolicy::TokenAligned, DrainPolicy::AlwaysAll, &mut gs);
+            evs.extend(cont);
+            st.bump("runs_with_continuation");
+        }
         super::record_gen(st, &gs);
         super::count_events(st, &evs);
         let mut t = Trace::new("C12", cfg);
@@ -70,6 +82,18 @@ impl Check for C12 {
         t
     }
     fn execute(&self, t: &Trace, st: &mut Stats, ctx: &Ctx) -> Verdict {
+        // an optional Snapshot marker separates the string under test from a shared continuation
+        let m = t.events.iter().position(|e| matches!(e, Event::Snapshot)).unwrap_or(t.events.len());
+        let (main, cont): (&[Event], &[Event]) = (&t.events[..m], if m < t.events.len() { &t.events[m + 1..] } else { &[] });
+        let main_trace;
+        let t = if m < t.events.len() {
+            let mut tt = t.clone();
+            tt.events = main.to_vec();
+            main_trace = tt;
+            &main_trace
+        } else {
+            t
+        };
         let k = suffix_start(&t.events);
         let whole: String = t.events[k..]
             .iter()
@@ -145,6 +169,48 @@ impl Check for C12 {
             Ok(Some(("KNOWN", m))) => Verdict::Known { finding: m },
             Ok(Some((rule, d))) => Verdict::Violation { rule: rule.into(), detail: format!("{} pieces vs one feed_str of {} chars: {}", pieces, whole.chars().count(), d) },
             Ok(None) => {
+                // shared continuation: the twins must stay equal after every further event
+                for (ci, e) in cont.iter().enumerate() {
+                    if matches!(e, Event::Snapshot | Event::Observe) {
+                        continue;
+                    }
+                    if t.config.limit.is_some() && matches!(e, Event::Resize { .. }) {
+                        break; // see meta(): not required to agree past this point
+                    }
+                    let ra = catch_avt(|| {
+                        a.apply(e);
+                    });
+                    let rb = catch_avt(|| Live::apply_plain(&mut b, e));
+                    match (ra, rb) {
+                        (Ok(()), Ok(())) => {}
+                        (Err(_), Err(_)) => {
+                            st.bump("runs_abandoned_on_panic");
+                            return Verdict::Skip;
+                        }
+                        (Err(p), _) | (_, Err(p)) => return Verdict::Violation { rule: "C12/panic-one-side".into(), detail: format!("continuation event {}: only one twin panicked: {}", ci, p) },
+                    }
+                    let c2 = catch_avt(|| {
+                        if let Some(d) = same_screen(&a.vt, &b) {
+                            return Some(("C12/continuation-screen", d));
+                        }
+                        let (da, db) = (a.vt.dump(), b.dump());
+                        if da != db {
+                            return Some(("C12/continuation-modes", format!("dump() differs: {:?} vs {:?}", da, db)));
+                        }
+                        if t.config.limit.is_none() && a.vt.lines() != b.lines() {
+                            return Some(("C12/continuation-lines", format!("lines() differs: {} vs {} lines", a.vt.lines().len(), b.lines().len())));
+                        }
+                        None
+                    });
+                    match c2 {
+                        Err(p) => return Verdict::Violation { rule: "C12/panic-query".into(), detail: p },
+                        Ok(Some((rule, d))) => {
+                            return Verdict::Violation { rule: rule.into(), detail: format!("after the chunked / whole deliveries agreed, continuation event {} ({}) made them differ: {}", ci, crate::trace::event_brief(e).chars().take(50).collect::<String>(), d) }
+                        }
+                        Ok(None) => {}
+                    }
+                    st.bump("continuation_events_compared");
+                }
                 if last_is_feed_loop {
                     st.bump("feed_loop_tail");
                 }
@@ -157,12 +223,12 @@ impl Check for C12 {
     }
     fn meta(&self) -> Meta {
         Meta {
-            rule: "a shared prefix history (may contain resizes), then one string delivered (A) as the generated series of feed_str pieces / feed(char) loops, cut anywhere, and (B) as one feed_str; compared: view (cells, pens, wrap marks), cursor, cursor-key mode, dump() (modes; same build, same state) and - with unlimited scrollback - lines(); non-trivial = >= 2 pieces and >= 2 characters; distinct = final-screen digests",
+            rule: "a shared prefix history (may contain resizes), then one string delivered (A) as the generated series of feed_str pieces / feed(char) loops, cut anywhere, and (B) as one feed_str; compared: view (cells, pens, wrap marks), cursor, cursor-key mode, dump() (modes; same build, same state) and - with unlimited scrollback - lines(); in half of the runs a shared continuation (input; resizes only with unlimited scrollback, because under a limit the amount of retained scrollback may legitimately differ and a resize would expose it) follows and the twins must stay equal after each of its events; non-trivial = >= 2 pieces and >= 2 characters; distinct = final-screen digests",
             assumptions: vec!["with a scrollback limit lines() is not compared (trim timing is legitimately different; C14 covers the stream)", "a panic on both sides / in the shared prefix is C01's subject; a panic on one side only is a violation"],
             real: vec!["avt::Vt (both twins)", "avt::parser::Parser (lock-step)"],
             simulated: vec!["App", "Pipe (cut sets, feed() loops, damage)", "Window (prefix only)", "Consumer"],
             model: vec!["hidden-state tracker: alternate-screen flag for the F6 matcher"],
-            probes: vec!["string_ends_mid_sequence", "feed_loop_tail", "ended_on_alternate", "feed_char_calls"],
+            probes: vec!["string_ends_mid_sequence", "feed_loop_tail", "ended_on_alternate", "feed_char_calls", "runs_with_continuation", "continuation_events_compared"],
             fault_kinds: vec!["feed_str_calls", "feed_char_calls", "damaged_tokens", "resize_events", "drain_partial", "drain_drop"],
         }
     }
